@@ -9,6 +9,7 @@
 -/
 import Scico.Proofs.LinOps2
 import Scico.Proofs.LinOps3
+import Scico.Proofs.LinOps4
 import Mathlib.Data.Complex.Basic
 import Mathlib.Tactic.NormNum
 
@@ -89,6 +90,17 @@ theorem C04_circ_circulant (h : V K) (k n c : Nat) : ShiftInvariant (circMatrix 
 theorem C04_circ_from_operator (A : M K) (n d : Nat) (hA : ShiftInvariant A n) (hd : d < n)
     (i j : Nat) (hi : i < n) (hj : j < n) : fromOperatorMatrix A n d i j = A i j :=
   fromOperator_eq A n d hA hd i j hi hj
+
+/-- convolution theorem with the centre-shift phase: what `CircularConvolve._eval` computes —
+    `ifft( fft(h, n) · exp(+2πi c f/n) · fft(x) )` — equals the signal-domain circular convolution with
+    filter centre `c` (exact in any field with a primitive `n`-th root of unity `ζ = exp(−2πi/n)`;
+    for an integer `c` the three branches of the phase in the code all equal `ζ⁻¹^(c f)`). -/
+theorem C04_circ_fft {F : Type} [Field F] {ζ : F} {n : Nat} (hζ : IsPrimitiveRoot ζ n) (hn : 0 < n)
+    (hnF : (n : F) ≠ 0) (h : V F) (k c : Nat) (hk : k ≤ n) (x : V F) (j : Nat) :
+    dftInvCropEval ζ⁻¹ (1 / (n : F)) n
+        (fun f => dftEval ζ 1 n n (padTo h k) f * ζ⁻¹ ^ (c * f) * dftEval ζ 1 n n x f) j
+      = circEval h k n c x j :=
+  circ_fft_eq hζ hn hnF h k c hk x j
 
 example : (List.range 4).map (circEval (α := Int) (fun m => [1, -1].getD m 0) 2 4 1 (fun j => [3, 5, 6, 10].getD j 0))
     = [2, 1, 4, -7] := by decide
